@@ -37,7 +37,8 @@ PROP = {'rule': 'rapid-generated cases. One case = one LowNodeLoad plugin instan
             'pkg': 'pkg/descheduler/framework/plugins/loadaware',
             'files': ['C18/c18_lownodeload_test.go'],
             'tests': [{'run': 'TestVerifC18Balance', 'quick': 2000, 'quick_shards': 2, 'thorough': 8000},
-                      {'run': 'TestVerifC18BalanceViaConstructor', 'quick': 40, 'thorough': 150}]}],
+                      {'run': 'TestVerifC18BalanceViaConstructor', 'quick': 40, 'thorough': 150},
+                      {'run': 'TestVerifC18Relapse', 'quick': 1500, 'thorough': 4000}]}],
  'manifest': {'technique': 'property-based testing (rapid): generated clusters, threshold settings and multi-round usage histories against '
                            'a recording evictor, with an independent exact-arithmetic oracle per Evict call',
               'text': 'Generated-input / history search: a LowNodeLoad instance is driven through 1-6 successive Balance rounds over '
